@@ -108,6 +108,27 @@ def culprit(a, b):
     return a, b
 
 
+def culprit_ne(a, b):
+    """Descend two trees with identical repr to the innermost pair that is not == (for canonical keys)."""
+    for _ in range(50):
+        oa = getattr(a, "ufl_operands", None)
+        ob = getattr(b, "ufl_operands", None)
+        if isinstance(a, ufl.Form) and isinstance(b, ufl.Form):
+            oa, ob = a.integrals(), b.integrals()
+        elif isinstance(a, ufl.Integral) and isinstance(b, ufl.Integral):
+            if EQ(a.integrand(), b.integrand()) is not True:
+                a, b = a.integrand(), b.integrand()
+                continue
+            return a, b
+        if type(a) is not type(b) or not oa or not ob or len(oa) != len(ob):
+            return a, b
+        diff = [(x, y) for x, y in zip(oa, ob) if EQ(x, y) is not True]
+        if not diff:
+            return a, b
+        a, b = diff[0]
+    return a, b
+
+
 def triple_key(a, b, c, ab):
     return "eq-transitive:" + "|".join(sorted({ab(a), ab(b), ab(c)}))
 
@@ -134,6 +155,25 @@ def value_envs():
     return G["envs"]
 
 
+def alias_user_terminals(o, env):
+    """The model identifies form arguments/constants by class name and count: map the harness subclasses HC/HK
+    (c13_univ) to plain UFL terminals with a count of their own."""
+    stack, seen = [o], set()
+    while stack:
+        e = stack.pop()
+        if id(e) in seen:
+            continue
+        seen.add(id(e))
+        if type(e) is U.HC:
+            if e not in env.alias:
+                env.alias[e] = C.Coefficient(e.ufl_function_space(), count=1000 + e.count())
+        elif type(e) is U.HK:
+            if e not in env.alias:
+                env.alias[e] = C.Constant(e.ufl_domain(), e.ufl_shape, count=1000 + e.count())
+        else:
+            stack.extend(e.ufl_operands)
+
+
 def value_of(o):
     """(status, printable value) under the reference evaluator, for scalar index-free expressions."""
     if not isinstance(o, ufl.core.expr.Expr):
@@ -144,6 +184,7 @@ def value_of(o):
         return ("deriv-depth", None)
     last = "undefined"
     for env in value_envs():
+        alias_user_terminals(o, env)
         try:
             v = M.sem(o, M.Ctx(env))
             return ("ok", f"{env.name}: {M.show(v, 15)}")
@@ -212,7 +253,8 @@ def check_pair(a, b, ab, dom, deep=False):
             elif (va[0] == "nonscalar") != (vb[0] == "nonscalar"):
                 out.append((pair_key("eq-implies-value", a, b, ab), "a==b but only one of them is scalar-valued"))
     elif repr(a) == repr(b):
-        out.append((pair_key("repr-implies-eq", a, b, ab), "identical repr but a != b"))
+        ca, cb = culprit_ne(a, b)
+        out.append((f"repr-implies-eq:{ab(ca)}|{ab(cb)}", "identical repr but a != b"))
     return out
 
 
@@ -253,7 +295,10 @@ def roundtrip_laws(kind, o, p, r, h, s, d):
         out.append((f"{kind}-type:{d}", f"round trip gives a {type(p).__name__}"))
         return out
     if EQ(p, o) is not True or EQ(o, p) is not True:
-        out.append((f"{kind}-eq:{d}", "round trip gives an object that is not == the original"))
+        dd = d
+        if repr(p) == r:
+            dd = G["ab"](culprit_ne(o, p)[0])
+        out.append((f"{kind}-eq:{dd}", "round trip gives an object that is not == the original"))
     if repr(p) != r:
         out.append((f"{kind}-repr:{d}", "round trip changes repr"))
     if hash(p) != h:
@@ -327,6 +372,11 @@ def expression_recipes(quick, T, memo, run, ab):
     for a in U.OPS_T:
         for b in U.OPS_T:
             c += U.binary_candidates(("t", a), ("t", b), a in U.ZOO_T and b in U.ZOO_T)
+    for n in U.BFO_T:
+        c += U.unary_candidates(("t", n), T[n])
+        for b in U.BFO_PARTNERS + U.BFO_T:
+            c += U.binary_candidates(("t", n), ("t", b))
+            c += U.binary_candidates(("t", b), ("t", n))
     L1 = admit(c, T, memo, seen, run, 1, ab)
     comb3 = set(U.COMB_T[:3])
     comb = comb3 if quick else set(U.COMB_T)
@@ -337,6 +387,11 @@ def expression_recipes(quick, T, memo, run, ab):
         for b in sorted(comb, key=U.COMB_T.index):
             c += U.binary_candidates(r, ("t", b))
             c += U.binary_candidates(("t", b), r)
+    # level-1 states that contain a colliding terminal (with f / c as the other operand): all unary operators
+    coll = set(U.COLLIDE_T)
+    cbases = [r for r in L1 if recipe_terms(r) & coll and recipe_terms(r) <= coll | set(U.COMB_T[:1] + U.COMB_T[2:3])]
+    for r in cbases:
+        c += U.unary_candidates(r, memo[r])
     L2 = admit(c, T, memo, seen, run, 2, ab)
     L3 = []
     if not quick:
@@ -350,11 +405,13 @@ def expression_recipes(quick, T, memo, run, ab):
     run.bounds.update(
         terminals=len(L0),
         operand_terminals_level1=U.OPS_T,
+        base_form_operator_atoms_level1=U.BFO_T,
         comb_terminals_level2=sorted(comb),
         levels=[len(L0), len(L1), len(L2), len(L3)],
         comb="level 1: every unary/indexing/binary operator over all (pairs of) operand terminals (+ operator zoo on 5 terminals); "
         "level 2: every unary/indexing operator over, and every binary operator (both orders) of a comb terminal with, each "
-        "level-1 state built from comb terminals only"
+        "level-1 state built from comb terminals only; + every unary/indexing operator over the level-1 states that contain a "
+        "hash-colliding user terminal (HC/HK)"
         + ("" if quick else "; level 3: abs/variable/'+'/indexing over level-2 states built from the 3 core terminals"),
     )
     return L0 + L1 + L2 + L3
@@ -439,10 +496,18 @@ def row_case(part, u, x):
         part.inc("transitions", M_)
     # the row object took part in M_ comparisons (and was rewritten by every successful one): unchanged?
     if attrs(xx) != A[x]:
+        # key: innermost difference between a freshly built object of the same recipe and the object now
+        N = u["N"]
+        T, dom, _ = U.terminals()
+        fresh = build_any(u["recipes"][x % N], T, dom, {})
+        now = repr(xx)
+        partner = [y for y in hits if A[y][0] == now and A[y][0] != A[x][0]]
+        w = wit(x, partner[0] if partner else x)
+        w["part"] = "A-mutate"
         part.violation(
-            f"compare-mutates:{ab(A[x][0])}",
-            "repr/hash/str/shape of an object changed after comparing it with the universe",
-            wit(x, x),
+            pair_key("compare-mutates", fresh, xx, ab),
+            "repr/hash/str/shape of an object changed after comparing it (as left operand of ==) with the universe",
+            w,
         )
     return hits
 
@@ -468,7 +533,7 @@ def xpickle_case(chunk):
     """Unpickle objects written by an interpreter with another str hash seed; compare with the local copy.
 
     Runs in a forked child of its own (see isolated): unpickling may overwrite the cached hash of process-wide
-    UFL singletons, which must not leak into any other case.
+    UFL singletons, which must not leak into the cases of the other passes.
     """
     part = Part()
     ab = G["ab"]
@@ -530,20 +595,6 @@ def isolated(f, arg):
     if status != "ok":
         raise RuntimeError("isolated case failed: " + res)
     return res
-
-
-def b_worker(chunk):
-    """Final pass: foreign pickles (each chunk in a child of its own) and histories."""
-    part = Part()
-    d = part.dict()
-    out = [d]
-    xp = [it[1:] for it in chunk if it[0] == "xp"]
-    if xp:
-        out.append(isolated(xpickle_case, xp))
-    hs = [it[1:] for it in chunk if it[0] == "hist"]
-    if hs:
-        out.append(H.hist_worker(hs))
-    return {"parts": out}
 
 
 def xpickle_laws(o, p, a0, ab):
@@ -666,10 +717,16 @@ def part_a(run, recipes, forms, label):
             "show": [U.show_any(recipes[x % N]), U.show_any(recipes[y % N])],
         }
 
+    bfo = [any(n in json.dumps(r) for n in ("ExternalOperator", "Interpolate")) for r in recipes]
+    run.count(f"{label}_evalrepr_not_applicable(BaseFormOperator repr is not an expression)", sum(bfo))
+
     def flags(i):
         f = set()
         if not plain[i % N]:
             f |= {"pickle", "eval"}
+        if bfo[i % N]:
+            # the repr of BaseFormOperator uses ';' separators like its str: not meant for eval (reported, not a law)
+            f.discard("eval")
         return f
 
     term_rows = set()
@@ -723,7 +780,12 @@ def part_a(run, recipes, forms, label):
                     run.violation(pair_key("eq-symmetric", X[x], X[y], ab), "a==b but not b==a (in the all-pairs pass)", wit(x, y))
             if A[x] != A[y]:
                 if not confirm(x, y, "eq-implies"):
-                    raise RuntimeError("bulk attribute difference not reproduced on the pair")
+                    # the worker saw X[x] == X[y] after other comparisons of X[x]; on untouched objects they are unequal
+                    run.violation(
+                        pair_key("eq-history-dependent", X[x], X[y], ab),
+                        "a==b was True after a had been compared with the rest of the universe, but is False on fresh objects",
+                        wit(x, y),
+                    )
             if Eset[y] != ex:
                 # transitivity: some z is equal to one of them but not to the other
                 for z in sorted(ex ^ Eset[y]):
@@ -818,7 +880,7 @@ def main(argv):
         foreign_hash_seed=XSEED,
     )
 
-    # ---- foreign pickles of both universes (one foreign interpreter) + Part B: histories, in one parallel pass
+    # ---- foreign pickles of both universes (one foreign interpreter, one worker pool)
     tick("foreign interpreter")
     items = []
     allr, allu = [], []
@@ -835,14 +897,23 @@ def main(argv):
         run.count(f"{label}_foreign_pickles", sum(u["usable"]))
         idx = [i for i in range(u["N"]) if u["usable"][i]]
         items += [("xp", label, i) for i in idx]
-    tick("histories + foreign pickles")
+    tick("foreign pickles")
+    if items:
+        run.merge(isolated(xpickle_case, [it[1:] for it in items]))
+    # ---- Part B: histories
+    tick("histories")
     if "hist" in only:
-        items += [("hist",) + it for it in H.history_items(run, quick)]
-    for d in pmap(b_worker, items, seed=run.seed, chunks_per_proc=8):
-        for part in d["parts"]:
-            run.merge(part)
+        H.run_histories(run, quick)
     tick("done")
 
+    if os.environ.get("C13_VERBOSE"):
+        import collections
+
+        fam = collections.Counter(v["key"].split(":")[0] for v in run.violations)
+        print("violation families:", dict(fam))
+        for v in run.violations:
+            if v["key"].startswith(("eq-history", "eq-transitive", "eq-symmetric")):
+                print("  ", v["key"][:400])
     run.rule = (
         "Part A: every recipe of the stated grammar, built twice; == on ALL ordered pairs of the 2N objects; a state is a distinct "
         "repr; non-trivial = a pair of distinct Python objects that compare equal.  Part B: every sequence of comparison events up "
@@ -886,6 +957,18 @@ def replay(run):
             print("c:", ab(c)[:600], rel)
             if rel["ab"] and bool(rel["ac"]) != bool(rel["bc"]):
                 run.violation(triple_key(a, b, c, ab), "x==y, and z is == exactly one of x, y", w)
+    elif part == "A-mutate":
+        a = obj(w["ra"], w["copies"][0])
+        b = obj(w["rb"], w["copies"][1])
+        before = attrs(a)
+        r = EQ(a, b)
+        print("a:", ab(before[0])[:600])
+        print("b:", ab(b)[:600])
+        print("a == b:", r, "; a afterwards:", ab(a)[:600])
+        if attrs(a) != before:
+            T, dom, _ = U.terminals()
+            fresh = build_any(U.tup(w["ra"]), T, dom, {})
+            run.violation(pair_key("compare-mutates", fresh, a, ab), "a changed by evaluating a == b", w)
     elif part == "A-dup":
         print("see witness: two recipes with one repr;", w.get("show"))
     elif part == "A-obj":
